@@ -39,7 +39,8 @@ type plan struct {
 	real      []string // components that ran real code
 	stubs     []string // components that ran a stub
 	post      func(outs []runOut) []violation
-	nontriv   func(o *runOut) (bool, string) // non-trivial? and distinctness key
+	nontriv   func(o *runOut) (bool, string)  // non-trivial? and distinctness key
+	cases     func(o *runOut) (int, []string) // episodes that hold many cases: (cases run, keys of the non-trivial ones)
 	extra     map[string]any
 }
 
@@ -170,6 +171,14 @@ func episodeViolations(prop string, o *runOut) (vs []violation, harnessErr strin
 		return nil, fmt.Sprintf("episode seed %d: %s: %s", r.Seed, r.Class, r.Msg)
 	case "violation":
 		vs = append(vs, violation{Prop: prop, Class: r.Class, Msg: r.Msg, Sig: sigOf(o, r.Class), Sc: o.sc, Trace: r.TraceHash})
+	}
+	seenN := map[string]bool{}
+	for _, n := range r.Notices {
+		if seenN[n.Class] {
+			continue
+		}
+		seenN[n.Class] = true
+		vs = append(vs, violation{Prop: prop, Class: n.Class, Msg: n.Msg, Sig: sigOf(o, n.Class), Sc: o.sc, Trace: r.TraceHash})
 	}
 	for i := range o.races {
 		rr := &o.races[i]
@@ -486,6 +495,7 @@ func buildEvidence(pl *plan, tier string, seed uint64, outs []runOut, nviol int,
 	distinct := map[string]bool{}
 	policies := map[string]int{}
 	nontrivial := 0
+	caseEvals := 0
 	maxPar := 0
 	races := 0
 	var samples []any
@@ -518,6 +528,20 @@ func buildEvidence(pl *plan, tier string, seed uint64, outs []runOut, nviol int,
 		if r.TraceHash != "" {
 			traces[r.TraceHash] = true
 		}
+		if pl.cases != nil {
+			n, keys := pl.cases(o)
+			caseEvals += n
+			for _, k := range keys {
+				if !distinct[k] {
+					distinct[k] = true
+					nontrivial++
+				}
+			}
+			if len(samples) < 3 && len(keys) > 0 {
+				samples = append(samples, map[string]any{"case": keys[len(keys)/2], "cases_in_episode": n})
+			}
+			continue
+		}
 		nt, key := false, ""
 		if pl.nontriv != nil {
 			nt, key = pl.nontriv(o)
@@ -547,6 +571,10 @@ func buildEvidence(pl *plan, tier string, seed uint64, outs []runOut, nviol int,
 		hours = 1e-9
 	}
 	cov["evaluations"] = len(outs)
+	if pl.cases != nil {
+		cov["evaluations"] = caseEvals
+		cov["episodes"] = len(outs)
+	}
 	cov["distinct_nontrivial"] = nontrivial
 	cov["rule"] = pl.rule
 	cov["samples"] = samples
